@@ -1,28 +1,42 @@
-(* C12 — Maven versions order as Maven's ComparableVersion does.              INCOMPLETE.
-   Equality with the reference order: see TODO below.  This file states what already exists:
-   the reference order (Spec/MavenCV.v, written from org.apache.maven.artifact.versioning.
-   ComparableVersion of Maven 3.8 independently of the Go code) with the laws it has, the
-   property's own chains as computed examples, and the C03-style facts about the LIBRARY's
-   Compare that are part of C12's wording (numeric tuples, pre-release qualifiers below and
-   sp above the release, ga/final/release equal to it), together with the library's order
-   cycle (finding F-maven-order-cycle).
+(* C12 — Maven versions order as Maven's ComparableVersion does.
+   Statements only; the proofs live in Eco/Maven/SpecFacts.v, Spec/MavenCVFacts.v and
+   Eco/Maven/VersionFacts.v.
 
-   Two things the coming equality theorem has to live with, both stated below:
+   The reference is Spec/MavenCV.v, written from org.apache.maven.artifact.versioning.
+   ComparableVersion (Maven 3.8) independently of the Go code: [parse_cv] builds the nested item
+   lists, [cv_cmp] / [mvn_cmp] compare them; [spec_valid] = the property's conventional shapes,
+   [spec_cmp a b] = [Some (mvn_cmp a b)] on valid texts.  The check cross-validates it against
+   the Maven jar.
+
+   The property as worded is FALSE for the library (open finding F-maven-not-comparableversion):
+   the Go code keeps ONE flat element list where ComparableVersion nests lists, so sp, the
+   release words, unknown qualifiers, build numbers, separated qualifier numbers and zeros
+   before a qualifier are ordered differently.  What is proved is the equality on the
+   complement of the finding's class.  The class is "a side is outside
+          N(.N){0,3} [ (.|-) W D ]
+   where every N has 1..18 digits and either W is one of alpha|beta|milestone|rc|cr|snapshot in
+   any letter case with D of 0..18 glued digits, or W is one of a|b|m with D of 1..18 digits;
+   and, when the group is present, the value of the last N is not 0", recognised by
+   [in_scope] (C12_scope_def spells it out).  On it every text is accepted and Compare IS
+   ComparableVersion (C12_maven_cmp_is_spec).  Outside it the library deviates, one witness per
+   mechanism, including one showing that the non-zero side condition is needed (Part D).
+
+   Independently of that finding:
    - the REFERENCE itself is not transitive on exotic shapes (C12_reference_not_transitive,
      found by exhaustive search and confirmed with the 3.8.7 jar), which is why the property
      is restricted to conventionally shaped versions;
-   - the LIBRARY is not transitive even on conventional shapes (C12_maven_cycle:
-     1-foo < 1-5 < 1-sp < 1-foo) and identifies 1.0.1 with 1.0-1 where the reference separates
-     them (C12_maven_differs_from_reference, computed) — so the unrestricted equality is FALSE.
+   - the LIBRARY is not transitive even on conventional shapes (finding F-maven-order-cycle,
+     C12_maven_cycle: 1-foo < 1-5 < 1-sp < 1-foo); none of the three is in [in_scope].
 
-   Proofs live in Spec/MavenCVFacts.v and Eco/Maven/VersionFacts.v. *)
-(* TODO: maven_cmp_is_spec — to be added from Eco/Maven/SpecFacts.v
-   (with maven_accepts_spec_valid and the *_refuted witnesses outside its scope) *)
+   A  the reference: laws, the property's chains, its own cycles
+   B  the library against the reference, on the class
+   C  clauses of the property that hold for the library beyond the class (C03-style)
+   D  outside the class: the witnesses *)
 From Coq Require Import List NArith.
 From Verif.Base Require Import Bytes GoNum Ord.
 From Verif.Eco Require Import VLayer Iface.
 From Verif.Spec Require MavenCV MavenCVFacts.
-From Verif.Eco.Maven Require Version VersionFacts Entry.
+From Verif.Eco.Maven Require Version VersionFacts Entry SpecFacts.
 Import ListNotations.
 
 (* ====================================================================== *)
@@ -76,7 +90,80 @@ Qed.
 Print Assumptions C12_reference_not_transitive.
 
 (* ====================================================================== *)
-(* B. the library's Compare: the clauses proved so far                     *)
+(* B. the library against the reference, on the class                      *)
+(* ====================================================================== *)
+
+(* the class, layer by layer: the leading N(.N){0,3} is scanned off ([scan_nums 3]: a "." continues
+   it only when a digit follows, at most three times), every N has 1..18 digits, and what remains
+   is empty or one group *)
+Theorem C12_scope_def :
+  (forall s : bytes,
+     Maven.SpecFacts.in_scope s =
+     (let (ds, rest) := Maven.SpecFacts.scan_nums 3 s in
+      forallb (fun d => nonempty_digits d && (length d <=? 18)%nat) ds &&
+      Maven.SpecFacts.group_ok (last ds []) rest)) /\
+  (forall (k : nat) (s : bytes),
+     Maven.SpecFacts.scan_nums k s =
+     (let d := take_while is_digit s in
+      let r := drop_while is_digit s in
+      match k, r with
+      | S k', c :: r' =>
+          if ceqb c "."%char && match r' with x :: _ => is_digit x | [] => false end
+          then let (ds, rest) := Maven.SpecFacts.scan_nums k' r' in (d :: ds, rest)
+          else ([d], r)
+      | _, _ => ([d], r)
+      end)) /\
+  (forall last_num rest : bytes,
+     Maven.SpecFacts.group_ok last_num rest =
+     match rest with
+     | [] => true
+     | sep :: r =>
+         let w := take_while is_letter r in
+         let dg := drop_while is_letter r in
+         (ceqb sep "."%char || ceqb sep "-"%char) && forallb is_digit dg && (length dg <=? 18)%nat
+         && (mem (to_lower w) [ $"alpha"; $"beta"; $"milestone"; $"rc"; $"cr"; $"snapshot" ]
+             || (mem (to_lower w) [ $"a"; $"b"; $"m" ] && match dg with [] => false | _ => true end))
+         && negb (digits_val last_num =? 0)%N
+     end).
+Proof.
+  split; [intros s; reflexivity|]. split; [intros k s; destruct k; reflexivity|].
+  intros last_num rest. reflexivity.
+Qed.
+Print Assumptions C12_scope_def.
+
+(* members and non-members of the class, and the members are conventional shapes *)
+Theorem C12_scope_examples :
+  forallb Maven.SpecFacts.in_scope
+    [ $"1"; $"1.0.0"; $"007.2.3.4"; $"1-rc"; $"1.RC2"; $"2.5-SNAPSHOT"; $"1.2-cr01";
+      $"3-a1"; $"3.1.B2"; $"1.0.1-m3"; $"1-alpha0"; $"123456789012345678.1-beta9" ] = true /\
+  forallb (fun s => negb (Maven.SpecFacts.in_scope s))
+    [ $""; $"1."; $"1.2.3.4.5"; $"1.0-rc1"; $"1-a"; $"1-sp"; $"1-rc-1"; $"1-rc.1"; $"1-jre"; $"1-1";
+      $"1234567890123456789"; $"1-rc1x"; $"v1"; $"1 "; $"0-rc" ] = true /\
+  forallb MavenCV.spec_valid
+    [ $"1"; $"1.0.0"; $"007.2.3.4"; $"1-rc"; $"1.RC2"; $"2.5-SNAPSHOT"; $"1.2-cr01";
+      $"3-a1"; $"3.1.B2"; $"1.0.1-m3"; $"1-alpha0"; $"123456789012345678.1-beta9" ] = true.
+Proof.
+  destruct Maven.SpecFacts.in_scope_examples as [H1 H2].
+  split; [exact H1|]. split; [exact H2 | exact Maven.SpecFacts.in_scope_examples_conventional].
+Qed.
+Print Assumptions C12_scope_examples.
+
+Theorem C12_maven_accepts_spec_valid : forall s : bytes,
+  Maven.SpecFacts.in_scope s = true -> MavenCV.spec_valid s = true ->
+  exists t, v_show Maven.Entry.v s = Some t.
+Proof. exact Maven.SpecFacts.maven_accepts_spec_valid. Qed.
+Print Assumptions C12_maven_accepts_spec_valid.
+
+(* Compare is ComparableVersion *)
+Theorem C12_maven_cmp_is_spec : forall a b : bytes,
+  Maven.SpecFacts.in_scope a = true -> Maven.SpecFacts.in_scope b = true ->
+  MavenCV.spec_valid a = true -> MavenCV.spec_valid b = true ->
+  v_cmp Maven.Entry.v a b = MavenCV.spec_cmp a b.
+Proof. exact Maven.SpecFacts.maven_cmp_is_spec. Qed.
+Print Assumptions C12_maven_cmp_is_spec.
+
+(* ====================================================================== *)
+(* C. clauses that hold for the library beyond the class                   *)
 (* ====================================================================== *)
 
 (* [digit_token d]: a non-empty digit run with a value below 2^63.  Dotted numerals of equal
@@ -131,8 +218,67 @@ Proof. exact Maven.VersionFacts.c03_release_alias. Qed.
 Print Assumptions C12_maven_release_alias.
 
 (* ====================================================================== *)
-(* C. the library deviates                                                 *)
+(* D. outside the class the library is NOT ComparableVersion               *)
 (* ====================================================================== *)
+
+(* one witness per mechanism: both texts conventional, both sides answer, the answers differ *)
+(* sp sorts above every number in the library, below in the reference *)
+Theorem C12_maven_cmp_is_spec_refuted_sp :
+  MavenCV.spec_valid $"1-sp" = true /\ MavenCV.spec_valid $"1.0.1" = true /\
+  exists x y : comparison,
+    v_cmp Maven.Entry.v $"1-sp" $"1.0.1" = Some x /\ MavenCV.spec_cmp $"1-sp" $"1.0.1" = Some y /\ x <> y.
+Proof. exact Maven.SpecFacts.maven_cmp_is_spec_refuted_sp. Qed.
+Print Assumptions C12_maven_cmp_is_spec_refuted_sp.
+
+(* unknown qualifiers sort below the release in the library, above it in the reference *)
+Theorem C12_maven_cmp_is_spec_refuted_unknown_qualifier :
+  MavenCV.spec_valid $"1.0-jre" = true /\ MavenCV.spec_valid $"1.0" = true /\
+  exists x y : comparison,
+    v_cmp Maven.Entry.v $"1.0-jre" $"1.0" = Some x /\ MavenCV.spec_cmp $"1.0-jre" $"1.0" = Some y /\ x <> y.
+Proof. exact Maven.SpecFacts.maven_cmp_is_spec_refuted_unknown_qualifier. Qed.
+Print Assumptions C12_maven_cmp_is_spec_refuted_unknown_qualifier.
+
+(* '.' and '-' before a number are the same separator for the library *)
+Theorem C12_maven_cmp_is_spec_refuted_dash_number :
+  MavenCV.spec_valid $"1.0.1" = true /\ MavenCV.spec_valid $"1.0-1" = true /\
+  exists x y : comparison,
+    v_cmp Maven.Entry.v $"1.0.1" $"1.0-1" = Some x /\ MavenCV.spec_cmp $"1.0.1" $"1.0-1" = Some y /\ x <> y.
+Proof. exact Maven.SpecFacts.maven_cmp_is_spec_refuted_dash_number. Qed.
+Print Assumptions C12_maven_cmp_is_spec_refuted_dash_number.
+
+(* zeros before a qualifier are kept by the library, dropped by the reference *)
+Theorem C12_maven_cmp_is_spec_refuted_zero_before_qualifier :
+  MavenCV.spec_valid $"99-cr" = true /\ MavenCV.spec_valid $"99.0.cr" = true /\
+  exists x y : comparison,
+    v_cmp Maven.Entry.v $"99-cr" $"99.0.cr" = Some x /\ MavenCV.spec_cmp $"99-cr" $"99.0.cr" = Some y /\ x <> y.
+Proof. exact Maven.SpecFacts.maven_cmp_is_spec_refuted_zero_before_qualifier. Qed.
+Print Assumptions C12_maven_cmp_is_spec_refuted_zero_before_qualifier.
+
+(* a qualifier's number that is separated rather than glued *)
+Theorem C12_maven_cmp_is_spec_refuted_separated_number :
+  MavenCV.spec_valid $"10.milestone-9" = true /\ MavenCV.spec_valid $"10-m9" = true /\
+  exists x y : comparison,
+    v_cmp Maven.Entry.v $"10.milestone-9" $"10-m9" = Some x /\ MavenCV.spec_cmp $"10.milestone-9" $"10-m9" = Some y /\ x <> y.
+Proof. exact Maven.SpecFacts.maven_cmp_is_spec_refuted_separated_number. Qed.
+Print Assumptions C12_maven_cmp_is_spec_refuted_separated_number.
+
+(* a release word in the middle *)
+Theorem C12_maven_cmp_is_spec_refuted_release_word :
+  MavenCV.spec_valid $"0.0-ga.1" = true /\ MavenCV.spec_valid $"0.0.1" = true /\
+  exists x y : comparison,
+    v_cmp Maven.Entry.v $"0.0-ga.1" $"0.0.1" = Some x /\ MavenCV.spec_cmp $"0.0-ga.1" $"0.0.1" = Some y /\ x <> y.
+Proof. exact Maven.SpecFacts.maven_cmp_is_spec_refuted_release_word. Qed.
+Print Assumptions C12_maven_cmp_is_spec_refuted_release_word.
+
+(* the non-zero side condition of the class is needed *)
+Theorem C12_maven_cmp_is_spec_refuted_zero_condition :
+  MavenCV.spec_valid $"1.0-rc1" = true /\ MavenCV.spec_valid $"1-rc1" = true /\
+  exists x y : comparison,
+    v_cmp Maven.Entry.v $"1.0-rc1" $"1-rc1" = Some x /\ MavenCV.spec_cmp $"1.0-rc1" $"1-rc1" = Some y /\ x <> y.
+Proof. exact Maven.SpecFacts.maven_cmp_is_spec_refuted_zero_condition. Qed.
+Print Assumptions C12_maven_cmp_is_spec_refuted_zero_condition.
+
+(* ----- the library's own order cycle ----- *)
 
 (* FINDING F-maven-order-cycle: unknown qualifier < number < sp < unknown qualifier *)
 Theorem C12_maven_cycle :
@@ -143,8 +289,8 @@ Theorem C12_maven_cycle :
 Proof. exact Maven.VersionFacts.cmp_not_transitive. Qed.
 Print Assumptions C12_maven_cycle.
 
-(* '.' and '-' are not interchangeable before a number in the reference (1-1 < 1.0.1); the
-   library identifies them (computed) *)
+(* the dash_number witness with its answers (computed): '.' and '-' are not interchangeable
+   before a number in the reference (1-1 < 1.0.1); the library identifies them *)
 Theorem C12_maven_differs_from_reference :
   MavenCV.spec_cmp $"1.0.1" $"1.0-1" = Some Gt /\ v_cmp Maven.Entry.v $"1.0.1" $"1.0-1" = Some Eq.
 Proof. vm_compute. split; reflexivity. Qed.
